@@ -222,14 +222,21 @@ def applyEff (e : PEff) (p : PImg) : PImg :=
 
 def applyEffs (es : List PEff) (p : PImg) : PImg := es.foldl (fun p e => applyEff e p) p
 
+/-- the node a property key belongs to (keys of the model: node · 10000 + j; the first 5 bytes of
+    the real key are tag + node) -/
+def keyNode (q : Nat) : Nat := q / 10000
+
 /-- a leaf rewrite that inserts ONE cell (`leaf_insert_at`: the slot array, in the first half of
-    the page, gets the new slot at position `i`; the cell itself is put below the existing cells,
-    in the second half while 27·n ≤ 4096): torn, the new slot points to bytes that were never
-    written — the entry at `i` is unreadable, all others are as before -/
+    the page, gets the new slot at position `i`; the cell itself is put below the existing cells —
+    cell n occupies the bytes [8192 − 27(n+1), 8192 − 27n)): torn, a new cell that lies in the second
+    half (27·n ≤ 4096) is bytes that were never written — the entry at `i` is unreadable, all
+    others are as before; the ONE cell that straddles the middle of the page (n = 152) keeps the
+    head of its key (tag + node) and loses the rest: it compares below every key of its node, and
+    the prefix scan of that node runs into it and fails (`some (keyNode q)`: a marker below all keys) -/
 def tornInsert (oes es : List (Option Nat)) : Option (List (Option Nat)) :=
   let i := ((List.range oes.length).find? (fun j => es.getD j none != oes.getD j none)).getD oes.length
-  if es.length = oes.length + 1 ∧ es.take i = oes.take i ∧ es.drop (i + 1) = oes.drop i ∧ 27 * es.length ≤ 4096
-  then some (es.set i none) else none
+  if es.length = oes.length + 1 ∧ es.take i = oes.take i ∧ es.drop (i + 1) = oes.drop i ∧ 27 * oes.length < 4096
+  then some (es.set i (if 27 * es.length ≤ 4096 then none else (es.getD i none).map keyNode)) else none
 
 /-- what reaches the disk of a page write that is torn in the middle (first half of the page
     persists, 512-byte sectors are atomic): meta fields, catalog entries, blob/segment contents of
@@ -344,5 +351,11 @@ def scanSeekOk (p : PImg) (key : Nat) (top : Bool) (q0 : Nat) : Bool :=
          !(decide (2 ≤ seps.length) && seps.all (· == 0)) && decide ((seps.filter (· < q0)).length < t.leaves.length)
        | none => false)
     | none => false
+
+/-- the prefix scan of the node of key `q0` runs into a half-written cell of that node (`tornInsert`) -/
+def scanHitsTorn (p : PImg) (key : Nat) (q0 : Nat) : Bool :=
+  match p.trees.find? (fun t => t.key == key) with
+  | some t => t.leaves.any (fun l => l.entries.contains (some (keyNode q0)))
+  | none => false
 
 end Nervus.Crash
